@@ -148,3 +148,26 @@ Theorem C08_code_tie_AcceptOneBid_and_TransferName :
        else None).
 Proof. intros s sg n other. exact (conj (do_accept_is_the_interpretation s sg n other) (do_transfer_is_the_interpretation s sg n other)). Qed.
 Print Assumptions C08_code_tie_AcceptOneBid_and_TransferName.
+
+
+(* listing needs the live, unlocked name's holder as signer and no listing yet; a listing is withdrawn only by its
+   creator while that creator still holds the name (the same stale-listing test a purchase makes) *)
+Theorem C08_code_tie_List_and_Delist :
+  forall s (sg : addr) n price,
+    (let w := the_name s n in
+     do_list s sg n price
+     = if ok_of (gen_List (GoTieRnsOwn.is_some (get_sale s (nm_full n))) (GoTieRnsOwn.is_some (nm_key n)) (GoTieRnsOwn.is_some w)
+                   (match w with Some r => negb (addr_eqb (n_value r) sg) | None => false end) (height s)
+                   (match w with Some r => n_locked r | None => 0 end) (match w with Some r => n_expires r | None => 0 end))
+       then Some (set_forsale s (aset N.eqb (forsale s) (nm_full n) {| f_price := price; f_owner := sg |}))
+       else None) /\
+    (let sl := get_sale s (nm_full n) in
+     let w := the_name s n in
+     do_delist s sg n
+     = if ok_of (gen_Delist (GoTieRnsOwn.is_some sl) (GoTieRnsOwn.is_some (nm_key n)) (GoTieRnsOwn.is_some w)
+                   (match sl with Some x => negb (addr_eqb (f_owner x) sg) | None => false end)
+                   (match w, sl with Some r, Some x => negb (addr_eqb (n_value r) (f_owner x)) | _, _ => false end))
+       then Some (set_forsale s (adel N.eqb (forsale s) (nm_full n)))
+       else None).
+Proof. intros s sg n price. exact (conj (do_list_is_the_interpretation s sg n price) (do_delist_is_the_interpretation s sg n)). Qed.
+Print Assumptions C08_code_tie_List_and_Delist.
